@@ -59,7 +59,8 @@ func main() {
 		stagger := fs.Int("stagger", 30, "ms between the starts of two RunT calls")
 		fs.Parse(os.Args[2:])
 		if *ignquit {
-			signal.Ignore(syscall.SIGQUIT)
+			// (SIGINT too: whatever is sent to a command in its first moments finds it deaf, and it lives to report)
+			signal.Ignore(syscall.SIGQUIT, syscall.SIGINT)
 		}
 		if os.Args[1] == "viarun" {
 			os.MkdirAll(*work, 0o755)
